@@ -588,6 +588,11 @@ func (gb *gcpBalancer) refresh(ref *subConnRef) {
 	if ref.refreshing {
 		return
 	}
+	if _, ok := gb.scRefs[ref.subConn]; !ok {
+		// The SubConn was shut down and left the pool; calls still finishing on it
+		// must not bring it back with a replacement.
+		return
+	}
 	ref.refreshing = true
 	sc, err := gb.cc.NewSubConn(
 		gb.addrs,
